@@ -39,6 +39,11 @@ def _work_dir(prop):
 def run_shards(check_name, items, tier, shard_timeout, nshards=None, extra_env=None):
     """Fan items out to worker processes; returns (results, problems)."""
     nshards = max(1, min(nshards or NPROC, len(items)))
+    # spread the cases pseudo-randomly (but deterministically) over the shards: index-periodic work
+    # (every 8th case starts real processes, ...) must not pile up in one shard
+    from vf.prng import mix
+
+    items = sorted(items, key=lambda it: mix(json.dumps(it, sort_keys=True, default=str)))
     wd = _work_dir(check_name)
     procs = []
     try:
